@@ -55,6 +55,10 @@ def gen_tree(rng, depth, allow_neg=False):
     if depth == 0 or rng.random() < 0.25:
         return gen_lit(rng)
     r = rng.random()
+    if r < 0.05:
+        # a sub-expression that is exactly zero (numerators and denominators of guarded divisions)
+        z = gen_lit(rng, allow_suffix=False, allow_sign=False)
+        return rng.choice([("lit", "0", 0.0), ("par", ("bin", "-", z, z)), ("bin", "*", ("lit", "0", 0.0), z)])
     if r < 0.12:
         return ("par", gen_tree(rng, depth - 1, allow_neg))
     if allow_neg and r < 0.2:
@@ -206,6 +210,9 @@ def n_leaves(e):
     return n_leaves(e[2]) + n_leaves(e[3])
 
 
+CORPUS_V = [("x = 2 3", 5.0), ("x = 2 3 * 4", 14.0), ("x = 2 (3)", 5.0), ("x = 10 -4", 6.0), ("total = 1k 500", 1500.0), ("0 / 0", 0.0),
+            ("(3 - 3) / (2 - 2)", 0.0), ("7 + (4 - 2 * 2) / 0 * 3", 7.0), ("x = 1 + 0 / (1 - 1)", 1.0), ("-0 / 0 + 2", 2.0),
+            ("y = (1) (2) 3", 6.0), ("5 / (2 - 2) + 1", 1.0)]
 CORPUS = ["1 + 2 * 3", "(1+2)*3", "8 / 4 / 2 + 1", "2 * (3 + 4) * 5", "10 - 4 - 3", "1 / 0 + 5", "3-5", "2*3-5",
           "1 2 3", "2 * 3 4", "1k + 2", "x = 2 * (3 + 4)", "((1 + 2)) * 3", "1,5 * 2", "1.000 + 1",
           "- 5 + 2", "(- 5 + 1) * 2"]
@@ -216,6 +223,8 @@ def generate(rng, tier):
     cases = []
     for t in CORPUS:
         cases.append(exec_case(t, kind="corpus", expect=None, classes=[]))
+    for t, v in CORPUS_V:
+        cases.append(exec_case(t, kind="corpus", expect=bits(v), classes=[]))
     while len(cases) < n:
         style = rng.choices(["explicit", "tight", "jux", "wild", "assign"], [45, 15, 12, 18, 10])[0]
         depth = rng.randint(1, 5)
@@ -224,7 +233,7 @@ def generate(rng, tier):
             continue
         e = parenthesise(e)
         toks = tokens(e)
-        if style == "jux":
+        if style == "jux" or (style == "assign" and rng.random() < 0.5):
             toks = elide_plus(rng, toks)
         if style == "wild" and rng.random() < 0.3:
             # drop an operator next to a parenthesis, or add extra parentheses
